@@ -61,6 +61,9 @@ def element_pool(cell: str, gdim: int, maxdeg: int = 3, rich: bool = True):
         add("MINI", ["blocked", ["enriched", [["el", "P", 1, {}], ["el", "Bubble", 3 if cell == "triangle" else 4, {}]]], [gdim]])
     if cell == "interval":
         add("Bubble", ["el", "Bubble", 2, {}])
+    if rich and cell != "prism":
+        # macro (iso) elements: piecewise polynomials on a refined cell, integrated with macro quadrature rules
+        add("iso", ["el", "iso", 1, {}])
     if cell in ("quadrilateral", "hexahedron") and piola_ok:
         for d in (1, 2):
             add("RTCF", ["el", "RTCF" if cell == "quadrilateral" else "NCF", d, {}])
@@ -724,6 +727,8 @@ def expr_specs(draw, profile=None):
         kinds = ["argK", "argK", "argK"]
     if len(consts) >= 2 and coefs and not has_arg:
         kinds += ["mixdrop", "mixdrop"]
+    if len(coefs) >= 2 and not has_arg:
+        kinds += ["gateaux", "gateaux"]
     kind = draw(st.sampled_from(kinds))
     g.features.add("exprkind:" + kind)
     if kind == "Lf":
@@ -741,6 +746,13 @@ def expr_specs(draw, profile=None):
         e = gen_linear(g, ["v"], elements[args[0]], m, allow_restrict=False)
         if g.chance(0.7):
             e = ["mul", gen_scalar(g, m, 1), e]
+    elif kind == "gateaux":
+        # linear in the first-created coefficient: its Gateaux derivative eliminates it, later coefficients survive
+        f0s = to_scalar(g, gen_linear(g, ["f", 0], elements[coefs[0]], m, allow_restrict=False, maxderiv=0))
+        k = g.int(1, len(coefs) - 1)
+        other = to_scalar(g, gen_linear(g, ["f", k], elements[coefs[k]], m, allow_restrict=False, maxderiv=1))
+        e = ["mul", f0s, ["add", other, ["lit", 0.5]]]
+        spec["transform"] = ["derivative", 0]
     else:  # mixdrop: constants that differentiation removes
         i, j = 0, 1
         k = g.int(0, len(coefs) - 1)
